@@ -183,7 +183,9 @@ int event_handler(coap_session_t *session, const coap_event_t event) {
       G->evictions++;
       if (G->max_idle == 0) fail("%s with no idle-session limit configured and before the session timeout", G->pending_del_what.c_str());
       // the victim must not be younger than every certainly idle session that stayed
-      else if (idle > 0 && G->pending_victim_activity > oldest_sure)
+      // (clock moving inside calls: the harness and libcoap stamp the same datagram up to the length of a call apart, so 'older' is only
+      //  decided beyond that margin)
+      else if (idle > 0 && G->pending_victim_activity > oldest_sure + (w.creep_every ? 50 : 0))
         fail("idle-limit eviction took a session last active at %llu although an idle session last active at %llu exists", (unsigned long long)G->pending_victim_activity, (unsigned long long)oldest_sure);
       G->pending_del = false;
     } else {
